@@ -432,7 +432,9 @@ int ZCK_PUBLIC_API zck_validate_data_checksum(zckCtx *zck) {
             size_t rb = BUF_SIZE;
             if(rb > to_read)
                 rb = to_read;
-            if(!read_data(zck, buf, rb))
+            /* A short read means the file ends before the data does; don't
+             * hash whatever the buffer still holds from the last round */
+            if(read_data(zck, buf, rb) != (ssize_t)rb)
                 return 0;
             if(!hash_update(zck, &(zck->check_full_hash), buf, rb))
                 return 0;
